@@ -70,6 +70,86 @@ fn tss_desc(rep: &mut Report, p: u64, cls: &str) {
     rep.class(&format!("tss-desc|{}|hi32={}|bits24-31={}", cls, if p >> 32 == 0 { "0" } else { "nz" }, if (p >> 24) & 0xff == 0 { "0" } else { "nz" }));
 }
 
+/// The safe constructor takes a reference, so it can look at the TSS: the descriptor must still be a function of the
+/// address alone. TSSes with arbitrary contents (stacks, I/O-map base, reserved fields) at addresses that differ in the
+/// low bits (offsets inside a buffer), in bits 24..31 and above bit 32 (separate mappings).
+fn tss_safe(rep: &mut Report, r: &mut Rng, places: &[(usize, usize)]) {
+    rep.eval();
+    let (base, len) = *r.pick(places);
+    let off = (r.below(((len - 0x68) / 4) as u64) as usize) * 4;
+    let p = (base + off) as *mut TaskStateSegment;
+    let cls;
+    unsafe {
+        p.write(TaskStateSegment::new());
+        match r.below(4) {
+            0 => cls = "fresh",
+            1 => {
+                cls = "iomap_base-varied";
+                let any = r.next() as u16;
+                (*p).iomap_base = *r.pick(&[0u16, 0x67, 0x68, 0x69, 0x100, 0x2000, 0xffff, any]);
+            }
+            2 => {
+                cls = "stacks-set";
+                for i in 0..3 {
+                    (*p).privilege_stack_table[i] = VirtAddr::new_truncate(r.next());
+                }
+                for i in 0..7 {
+                    (*p).interrupt_stack_table[i] = VirtAddr::new_truncate(r.next());
+                }
+            }
+            _ => {
+                cls = "everything-random";
+                // reserved fields are plain integers: any bytes are valid there
+                let b = p as *mut u8;
+                for o in (0..4).chain(0x1c..0x24).chain(0x5c..0x66) {
+                    b.add(o).write(r.next() as u8);
+                }
+                for i in 0..3 {
+                    (*p).privilege_stack_table[i] = VirtAddr::new_truncate(r.next());
+                }
+                for i in 0..7 {
+                    (*p).interrupt_stack_table[i] = VirtAddr::new_truncate(r.next());
+                }
+                (*p).iomap_base = r.next() as u16;
+            }
+        }
+    }
+    let before: [u8; 0x68] = unsafe { core::ptr::read(p as *const [u8; 0x68]) };
+    let st: &'static TaskStateSegment = unsafe { &*p };
+    let d = Descriptor::tss_segment(st);
+    let after: [u8; 0x68] = unsafe { core::ptr::read(p as *const [u8; 0x68]) };
+    let addr = p as u64;
+    match d {
+        Descriptor::SystemSegment(lo, hi) => {
+            let s = decode_sys(lo, hi);
+            let exp = Sys { base: addr, limit: 0x67, typ: 0b1001, s: false, dpl: 0, p: true, avl: false, l: false, db: false, g: false, high_reserved: 0 };
+            if s != exp {
+                let what = if s.base != addr {
+                    "base-is-not-the-tss-address"
+                } else if s.limit != 0x67 {
+                    "limit-is-not-0x67"
+                } else if s.typ != 0b1001 || s.s {
+                    "type-is-not-available-64bit-tss"
+                } else if !s.p || s.dpl != 0 {
+                    "present-or-dpl-wrong"
+                } else {
+                    "reserved-bits-not-zero"
+                };
+                rep.violation(&format!("tss_segment|{}", what), J::obj(vec![("tss", J::hex(addr)), ("contents", J::s(cls)), ("iomap_base", J::hex(u16::from_le_bytes([before[0x66], before[0x67]]) as u64)), ("low", J::hex(lo)), ("high", J::hex(hi)), ("decoded", J::s(format!("{:x?}", s)))]));
+            }
+            let u = unsafe { Descriptor::tss_segment_unchecked(p) };
+            if format!("{:x?}", u) != format!("{:x?}", d) {
+                rep.violation("tss_segment|differs-from-tss_segment_unchecked-for-the-same-address", J::obj(vec![("tss", J::hex(addr)), ("contents", J::s(cls)), ("safe", J::s(format!("{:x?}", d))), ("unchecked", J::s(format!("{:x?}", u)))]));
+            }
+        }
+        Descriptor::UserSegment(_) => rep.violation("tss_segment|not-a-system-segment", J::hex(addr)),
+    }
+    if before != after {
+        rep.violation("tss_segment|modified-the-tss", J::hex(addr));
+    }
+    rep.class(&format!("tss-safe|{}|bits24-31={}|hi32={}", cls, if (addr >> 24) & 0xff == 0 { "0" } else { "nz" }, if addr >> 32 == 0 { "0" } else { "nz" }));
+}
+
 fn presets(rep: &mut Report) {
     // (name, bits, executable, long, default_size, dpl)
     let table: [(&str, u64, bool, bool, bool, u8); 6] = [
@@ -168,6 +248,25 @@ pub fn run(a: &Args, rep: &mut Report) {
                 rep.sample(J::obj(vec![("tss", J::hex(p)), ("low", J::hex(lo)), ("high", J::hex(hi))]));
             }
         }
+    }
+    // the safe constructor on real TSSes
+    let mut buf: Vec<u32> = vec![0; 16 * 1024];
+    let mut places: Vec<(usize, usize)> = vec![(buf.as_mut_ptr() as usize, buf.len() * 4)];
+    #[cfg(not(miri))]
+    for hint in [0x1000_0000usize, 0x7f00_0000, 0x1_2300_0000, 0x6543_21ab_c000, 0x0100_0000_0000] {
+        let m = unsafe { libc::mmap(hint as *mut libc::c_void, 8192, libc::PROT_READ | libc::PROT_WRITE, libc::MAP_PRIVATE | libc::MAP_ANONYMOUS | libc::MAP_FIXED_NOREPLACE, -1, 0) };
+        if m != libc::MAP_FAILED {
+            places.push((m as usize, 8192));
+        }
+    }
+    let n = a.budget(200_000, 20_000_000);
+    for _ in 0..n {
+        tss_safe(rep, &mut r, &places);
+    }
+    rep.count("tss_safe_places", places.len() as u64);
+    #[cfg(not(miri))]
+    for &(b, l) in places.iter().skip(1) {
+        unsafe { libc::munmap(b as *mut libc::c_void, l) };
     }
     // dpl() over random user descriptors
     let n = a.budget(200_000, 20_000_000);
